@@ -1,11 +1,11 @@
 """C12 remote delivery integrity (Proto engine)."""
 
 IMPORTS = ("From Coq Require Import Uint63.\n"
-           "From Ergo Require Import Common.Base Proto.Model Proto.Cases.\n"
+           "From Ergo Require Import Common.Base Proto.Model Proto.Cases Wire.Cases.\n"
            "Local Open Scope Z_scope.")
 
 SHARD = 10
-CORR = ["corr_send", "corr_recv", "corr_resegment", "corr_ack_frames"]
+CORR = ["corr_send", "corr_recv", "corr_resegment", "corr_ack_frames", "corr_e2e"]
 SPEC = ["spec_delivery", "spec_limit"]
 
 # dialing side of a pool link: handshake tails, link drops, re-dials (harness sub-command `redial`)
